@@ -259,13 +259,19 @@ def shards(tier, seed):  # pylint: disable=unused-argument,too-many-locals
                 continue
             if not thorough and base_idx == 1:
                 lows = [interesting[0], interesting[2], interesting[3]]     # SCSV, TLS 1.3 and fallback-SCSV ranges
-            for low in lows:
+            spans_ = [(low, low + step) for low in lows]
+            if not thorough and base_idx == 1:
+                # with the compose + parse clause every path costs seconds: narrow ranges around the SCSV, TLS 1.3,
+                # fallback-SCSV and GREASE codes
+                spans_ = [(0x00f8, 0x0100), (0x1300, 0x1308), (0x5600, 0x5604), (0x0a08, 0x0a0c)]
+            for low, high in spans_:
                 out.append(Shard(MOD, 'ja3_suite', 'suite/%d-%d/%04x' % (base_idx, pos, low),
-                                 {'SUITES': suites, 'POS': pos, 'EXT': ext, 'LO': low, 'HI': low + step,
+                                 {'SUITES': suites, 'POS': pos, 'EXT': ext, 'LO': low, 'HI': high,
                                   'AGAIN': base_idx == 1}, 900,
                                  bounds='cipher suite at position %d of %d ranging over %#06x..%#06x (known, unknown, '
-                                        'GREASE, SCSV), extensions %s' % (pos, len(suites), low, low + step - 1,
-                                                                          'present' if ext else 'absent')))
+                                        'GREASE, SCSV), extensions %s%s' % (
+                                            pos, len(suites), low, high - 1, 'present' if ext else 'absent',
+                                            ', and the same JA3 after compose + parse' if base_idx == 1 else '')))
     parsed_types = set()
     for cls in registry.leaf_parsable_classes():
         if registry.class_name(cls).startswith('cryptoparser.tls.extension.TlsExtension') and hasattr(
